@@ -34,7 +34,7 @@ def signature(t_id, events, off, reason):
 
 def run(ctx, n=None, nbig=None, corrupt=None):
     n = n if n is not None else (60 if ctx.quick else 1200)
-    nbig = nbig if nbig is not None else (1 if ctx.quick else 12)
+    nbig = nbig if nbig is not None else (2 if ctx.quick else 16)
     cases = os.path.join(ctx.work, "cases.ndjson")
     _drive(ctx, "gen", n, nbig, cases)
     r = core.tlc(SPEC, "BPFProbe", "BPFProbe.cfg" if ctx.quick else "BPFProbe_thorough.cfg", workers=1, timeout=900 if ctx.quick else 3000,
